@@ -168,7 +168,7 @@ def run(prop, say=print, limit=600, jobs=16):
     if len(tasks) > limit:
         import random
         random.Random(seed).shuffle(tasks)
-        tasks = sorted(tasks[:limit])
+        tasks = sorted(tasks[:limit], key=lambda t: tuple(str(x) for x in t))
     out = dict(generic_mutants=0, generic_detected=0, generic_errors=0, survivors=[], by_kind={})
     if not tasks:
         return out
